@@ -141,10 +141,16 @@ def build(ctx, prop_files, variants=("plain",), need_model=True):
         # T1b: the Gallina models of the pure integer cores (ring buffer, signal-definition normalisation, on-disk size, tmap search,
         # omit register, seek step) are regenerated from the current C source; their equivalence with the hand models is re-proved by make
         rc2, out2 = sh([sys.executable, os.path.join(VERIF, "tools", "c2gallina.py")], timeout=600)
+        tie_msg = ""
         if rc2 != 0:
-            ctx.proof_build_ok = False
-            ctx.tie_broken = True
-            ctx.proof_build_log += "\nTIE T1b BROKEN: tools/c2gallina.py could not translate the current source (exit %d):\n%s" % (rc2, out2[-2500:])
+            # the translator refuses a construct outside its subset (exit 3) - per generated module.  Only the properties whose theorems are
+            # stated on that module lose their tie; the others note it in the evidence and go on
+            failed = set(re.findall(r"c2gallina: (Gen\w+) \(", out2)) or {"?"}
+            ctx.extra["c2gallina_refused"] = sorted(failed)
+            if GEN_OF.get(ctx.prop) in failed or "?" in failed:
+                ctx.proof_build_ok = False
+                ctx.tie_broken = True
+                tie_msg = "\nTIE T1b BROKEN: tools/c2gallina.py could not translate the current source (exit %d):\n%s" % (rc2, out2[-2500:])
         if not os.path.exists(os.path.join(COQ, "Makefile.coq")) or \
                 os.path.getmtime(os.path.join(COQ, "Makefile.coq")) < os.path.getmtime(os.path.join(COQ, "_CoqProject")):
             sh("coq_makefile -f _CoqProject -o Makefile.coq", cwd=COQ)
@@ -152,7 +158,7 @@ def build(ctx, prop_files, variants=("plain",), need_model=True):
         # model files needed by the extraction are always (re)built; proofs only for the property's own targets
         targets = targets + model_targets()
         rc, out = sh(["timeout", "3000", "make", "-f", "Makefile.coq", "-k", "-j%d" % NPROC] + targets, cwd=COQ, timeout=3100)
-        ctx.proof_build_log = out[-6000:]
+        ctx.proof_build_log = (ctx.proof_build_log or "") + tie_msg + "\n" + out[-6000:]
         if rc != 0:
             ctx.proof_build_ok = False
         bad = forbidden_scan()
@@ -195,6 +201,7 @@ REFINE_OF = {
 }
 
 
+GEN_OF = {"C08": "GenMrb", "C16": "GenCore", "C01": "GenCore", "C05": "GenRaw", "C12": "GenTmap", "C15": "GenFsr"}
 COMPOSE_OF = {
     "C01": r"compose_(C01_|guards_|align_|vocabulary)",
     "C03": r"compose_C05_",
